@@ -19,6 +19,16 @@ CLAIMS = {
     note="Trusted: correspondence between Flags::parse_from/TryFrom<Vec<bool>> and decFlags/flagsFields is by differential testing (every single unknown position over 1..4 continuation bytes + random).",
     technique="Lean 4 theorems (induction over flag bytes) + dops-stream correspondence",
     ref="7/C16"),
+  "C03": dict(
+    text="Lean 4: for EVERY well-formed file of the frozen grammar (any complete prefix tree, overlapping ranges, any legal divisor, runs on any range, jumpstart 0..24, the legacy flag combinations, zero-count chunk, n <= order, any delta order) the operational model of the decompressor returns exactly the numbers the file encodes: whole-file (simple_decompress) and chunk API (header, chunk_metadata, chunk_body), for every Huffman lookup between the eager specification matcher and any prefix-safe lazier one (LazyOf); proved by refinement of the operational model to the specification decoder + the file-level round trip. Tie: random syntax trees encoded by the Lean spec encoder and decoded by the real library in three modes; the 8 shipped assets through both decoders.",
+    note="The real 6-bit-stride table is modelled by matchStride and compared on every dops line; that matchStride satisfies LazyOf is not yet proved (eagerMatcher is). Depth-31 trees (2 GiB validation table) are not generated.",
+    technique="Lean 4 refinement proof (operational model -> spec decoder) + AST-generator correspondence",
+    ref="7/C03"),
+  "C06": dict(
+    text="Lean 4: the specification decoder is prefix-safe (Safe for every parser of the format, incl. fuel monotonicity), hence every strict prefix (bit-granular) of a well-formed file decodes to `insufficient`; by refinement the operational simple_decompress on every strict byte prefix answers InsufficientData — never ok, never another kind — with the state unchanged, for every LazyOf lookup. (At non-byte cuts the model answers insufficient-or-corrupt; Write::write delivers whole bytes.) Tie: every truncation length of real files of every dtype on the implementation and on the model.",
+    note="as C03.",
+    technique="Lean 4 prefix-safety invariant of the parser monad + refinement + exhaustive truncation sweep",
+    ref="7/C06"),
   "C08": dict(
     text="Lean 4 theorems over an operational model of Decompressor with the code's commit points explicit (with_reader commits only on Ok but keeps closure mutations; dirty batch decode wrapped by snapshot/restore; simple_decompress wrapped by snapshot/restore): every operation that answers an error leaves the state equal (6 theorems), next answering none leaves the state equal under a proved reachable-state invariant (preserved by all operations), all protocol violations answer InvalidArgument with the state unchanged, terminated is set only by the footer. Tie: random call interleavings over valid and corrupted files compared token by token (results, error kinds, bit_idx) with the model; direct oracles on the implementation: Debug rendering identical before/after every failed call, twin run without the failed calls, retry after writing the missing bytes.",
     note="The model (lean/Qco/Op/Decomp.lean) is hand-written from decompressor.rs/num_decompressor.rs/chunk_body_decompressor.rs and tied by the dops correspondence stream; word-level bit packing is modelled as a bit list.",
